@@ -46,10 +46,12 @@ def run(ctx):
     n = R4.check_cross_derivation(ctx, led, om)
     led.require_min("C02.cross", n, 13, "EQ classes cross-derived")
     n = R4.check_m(ctx, led, om)
-    led.require_min("C02.m", n, 15, "effective-value tables")
+    led.require_min("C02.m", n, 15, "effective-value functions examined")
     rows = R4.check_eq(ctx, led, om)
     led.require_min("C02.eq", rows, 36 + 4 + 27 + 48 + 3 + 729, "classifier truth-table rows")
-    RS._check_fill(ctx, led, om, 4, "C02.fill")
+    from ..rules_parse import InfoLedger
+
+    RS._check_fill(ctx, InfoLedger(led), om, 4, "C02.fill")
     n = R4.check_search(ctx, led, om)
     led.require_min("C02.search", n, 13, "candidate lists by level")
     n = R4.check_extract(ctx, led, om, thorough=(ctx.tier == "thorough"))
